@@ -507,7 +507,12 @@ def gen_world(r, style):
             targets.append(ratom(keys[0]))
         else:
             k = r.choice(keys)
-            targets.append(_atom(k, r.choice(["any"] * 4 + [">=", "<"]), pick_ver(k)))
+            t = _atom(k, r.choice(["any"] * 4 + [">=", "<"]), pick_ver(k))
+            if style == "blocky" and r.random() < 0.4:
+                # one slot of a (multi-slot) name, e.g. the slot of something installed
+                mine = [p for p in pkgs if p["key"] == k]
+                t = _atom(k, slot=r.choice(mine)["slot"]) if mine else t
+            targets.append(t)
     return norm_world(dict(pkgs=pkgs, targets=targets))
 
 
